@@ -142,12 +142,29 @@ type Case struct {
 // ---------------------------------------------------------------- Coq printing
 
 func cz(x *big.Int) string { return "(" + x.String() + ")%Z" }
+
+// caddr prints a 20-byte address compactly (the case-file header defines ad and z20).
+func caddr(b []byte) string {
+	if len(b) == 20 {
+		z := true
+		for i := 3; i < 19; i++ {
+			z = z && b[i] == 0
+		}
+		if z && b[19] == b[2] {
+			if b[0] == 0 && b[1] == 0 && b[2] == 0 {
+				return "z20"
+			}
+			return fmt.Sprintf("(ad %d %d %d)", b[0], b[1], b[2])
+		}
+	}
+	return hlib.CoqBytes(b)
+}
 func crec(r Rec) string {
-	return fmt.Sprintf("(mkRec %s %d %d %s)", cz(r.Bal), r.Unlock, r.Elems, hlib.CoqBytes(r.Deleg))
+	return fmt.Sprintf("(mkRec %s %d %d %s)", cz(r.Bal), r.Unlock, r.Elems, caddr(r.Deleg))
 }
 func cadd(a *AddA) string {
 	v, _ := new(big.Int).SetString(a.Value, 10)
-	return fmt.Sprintf("(mkAdd %s %s %s %s %d %d %d %s)", hlib.CoqBytes(a.Owner), hlib.CoqBytes(a.Miner), hlib.CoqBytes(a.Deleg),
+	return fmt.Sprintf("(mkAdd %s %s %s %s %d %d %d %s)", caddr(a.Owner), caddr(a.Miner), caddr(a.Deleg),
 		hlib.CoqBool(a.SenderOk), a.Lb, a.Unlock, a.Epoch, cz(v))
 }
 func (o LOp) Coq() string {
@@ -159,14 +176,14 @@ func (o LOp) Coq() string {
 	case "claim":
 		c := o.Claim
 		m := []string{"TxOk", "TxFailed", "EvmOk", "EvmInnerRevert"}[c.Mode]
-		return fmt.Sprintf("CPrim (OClaim %s (mkClaim %s %s %s %d %d %d %d %d))", m, hlib.CoqBytes(c.Caller), hlib.CoqBytes(c.Miner),
-			hlib.CoqBytes(c.To), c.Lb, c.Epoch, c.Height, c.Gas, c.EtxGas)
+		return fmt.Sprintf("CPrim (OClaim %s (mkClaim %s %s %s %d %d %d %d %d))", m, caddr(c.Caller), caddr(c.Miner),
+			caddr(c.To), c.Lb, c.Epoch, c.Height, c.Gas, c.EtxGas)
 	case "get":
 		g := o.Get
-		return fmt.Sprintf("CPrim (OGet %s %s %d %d)", hlib.CoqBytes(g.Owner), hlib.CoqBytes(g.Miner), g.Lb, g.Epoch)
+		return fmt.Sprintf("CPrim (OGet %s %s %d %d)", caddr(g.Owner), caddr(g.Miner), g.Lb, g.Epoch)
 	case "getlatest":
 		g := o.Get
-		return fmt.Sprintf("CPrim (OGetLatest %s %s %d %d)", hlib.CoqBytes(g.Owner), hlib.CoqBytes(g.Miner), g.Lb, g.Height)
+		return fmt.Sprintf("CPrim (OGetLatest %s %s %d %d)", caddr(g.Owner), caddr(g.Miner), g.Lb, g.Height)
 	case "commit":
 		return "CPrim OCommit"
 	}
@@ -185,7 +202,7 @@ func (r LOut) Coq() string {
 	case "claim":
 		p := "None"
 		if r.Paid != nil {
-			p = fmt.Sprintf("(Some (mkPaid %s %s %s %d))", cz(r.Paid.Value), hlib.CoqBytes(r.Paid.To), hlib.CoqBytes(r.Paid.Sender), r.Paid.Gas)
+			p = fmt.Sprintf("(Some (mkPaid %s %s %s %d))", cz(r.Paid.Value), caddr(r.Paid.To), caddr(r.Paid.Sender), r.Paid.Gas)
 		}
 		return fmt.Sprintf("RClaim %s %d %s %s", hlib.CoqBool(r.Ok), r.Gas, p, crec(r.Post))
 	case "get":
@@ -1255,7 +1272,7 @@ func (c *Case) redeemCoq(out redeemOut) string {
 			if len(x.Data) > 0 {
 				lk = int(x.Data[0])
 			}
-			xs = append(xs, fmt.Sprintf("mkRetx %s %s %d %d %s", []string{"KCoinbase", "KConversion", "KOther"}[x.Kind], hlib.CoqBytes(x.To), len(x.Data), lk, cz(v)))
+			xs = append(xs, fmt.Sprintf("mkRetx %s %s %d %d %s", []string{"KCoinbase", "KConversion", "KOther"}[x.Kind], caddr(x.To), len(x.Data), lk, cz(v)))
 		}
 		bl = append(bl, fmt.Sprintf("(%d, %s)", b.Number, hlib.CoqList(xs)))
 	}
@@ -1264,17 +1281,17 @@ func (c *Case) redeemCoq(out redeemOut) string {
 	var pre, cr, post []string
 	for _, a := range in.Pre {
 		v, _ := new(big.Int).SetString(a.Bal, 10)
-		pre = append(pre, hlib.CoqPair(hlib.CoqBytes(a.Addr), cz(v)))
+		pre = append(pre, hlib.CoqPair(caddr(a.Addr), cz(v)))
 	}
 	for _, a := range out.credits {
 		v, _ := new(big.Int).SetString(a.Bal, 10)
-		cr = append(cr, hlib.CoqPair(hlib.CoqBytes(a.Addr), cz(v)))
+		cr = append(cr, hlib.CoqPair(caddr(a.Addr), cz(v)))
 	}
 	for _, p := range out.post {
 		if p.exist {
-			post = append(post, hlib.CoqPair(hlib.CoqBytes(p.addr), "Some "+cz(p.bal)))
+			post = append(post, hlib.CoqPair(caddr(p.addr), "Some "+cz(p.bal)))
 		} else {
-			post = append(post, hlib.CoqPair(hlib.CoqBytes(p.addr), "None"))
+			post = append(post, hlib.CoqPair(caddr(p.addr), "None"))
 		}
 	}
 	return fmt.Sprintf("CRedeem %s %d %s %s %d %s %s", hlib.CoqList(bl), in.Height, cz(fee), hlib.CoqList(pre), out.cls, hlib.CoqList(cr), hlib.CoqList(post))
@@ -1286,6 +1303,8 @@ const header = `From Coq Require Import List NArith ZArith.
 From GQ Require Import Model.C13.
 Import ListNotations.
 Local Open Scope N_scope.
+Definition ad (a b c : N) : list N := [a;b;c;0;0;0;0;0;0;0;0;0;0;0;0;0;0;0;0;c].
+Definition z20 : list N := [0;0;0;0;0;0;0;0;0;0;0;0;0;0;0;0;0;0;0;0].
 `
 
 func main() {
